@@ -27,7 +27,7 @@ RULE = (
     "distinct_nontrivial = distinct (workload, ploidy, chains, burn-in, empirical distribution) tuples in which the retained log held at least two distinct genotypes"
 )
 FAULT_KEYS = ["row_permute", "adversarial_choice", "shuffle", "exchange_accepted"]
-PROBE_KEYS = ["summaries_checked", "burn_values", "multi_genotype_logs", "mode_ties", "support_ties", "incongruence_checked", "incongruence_1", "incongruence_2",
+PROBE_KEYS = ["long_locus_traces", "summaries_checked", "burn_values", "multi_genotype_logs", "mode_ties", "support_ties", "incongruence_checked", "incongruence_1", "incongruence_2",
               "incongruence_tie_skip", "as_array_checked", "ped_individuals", "chains_disagree"]
 OPTIONAL_PROBES = {"quick": (), "thorough": ()}
 COMPONENTS = {
@@ -46,7 +46,10 @@ def prepare(tier):
 
 
 def gen_config(rng, tier, index=0):
-    w = rng.choice(["assemble", "assemble", "call", "call", "pedigree"])
+    w = rng.choice(["assemble", "assemble", "walk", "call", "call", "pedigree"])
+    if w == "walk":
+        return {"workload": "walk", "ploidy": rng.choice([2, 3, 4, 6]), "n_pos": rng.choice([1, 3, 8, 22, 23, 24, 30, 40, 64, 80]),
+                "steps": rng.randint(2, 8), "chains": rng.choice([1, 2, 3]), "threshold": rng.choice([0.0, 0.3, 0.6, 0.9])}
     if w == "assemble":
         cfg = wl_assemble.gen_config(rng, tier, "trace")
         cfg["entry"] = "fit"
@@ -160,6 +163,8 @@ def execute(ctx):
     w = cfg["workload"]
     if w == "assemble":
         check_assemble(ctx)
+    elif w == "walk":
+        run_walk(ctx)
     elif w == "call":
         check_call(ctx)
     else:
@@ -185,6 +190,54 @@ def check_assemble(ctx):
     sim = wl_assemble.AssembleSim(ctx, cfg, checks=())
     kind, trace = sim.run()
     chains = [[ref.hap_key(states[-1]) for states, _ in snaps] for _, snaps, _ in sim.history]
+    check_assemble_trace(ctx, cfg, trace, chains)
+
+
+def run_walk(ctx):
+    """Long-locus sub-scenario: a tape-driven walk over genotypes (mutate one site, copy one haplotype
+    over another, permute the stored rows) recorded both as the simulator's log of canonical multisets
+    and - in whatever row order the walk left it - as the stored trace handed to GenotypeMultiTrace."""
+    cfg = ctx.config
+    np = bootstrap()["np"]
+    t = ctx.tape
+    pl, n_pos, steps = cfg["ploidy"], cfg["n_pos"], cfg["steps"]
+    chains, stored = [], []
+    for c in range(cfg["chains"]):
+        base = [t.int(0, 1) for _ in range(n_pos)]
+        g = [list(base) for _ in range(pl)]
+        if c > 0 and t.chance(0.5):
+            g[0][t.int(0, n_pos - 1)] ^= 1
+        keys, rows = [], []
+        for i in range(steps):
+            for _ in range(t.int(0, 2)):
+                op = t.int(0, 2)
+                if op == 0:
+                    g[t.int(0, pl - 1)][t.int(0, n_pos - 1)] ^= 1
+                elif op == 1 and pl > 1:
+                    a, b = t.int(0, pl - 1), t.int(0, pl - 1)
+                    g[a] = list(g[b])
+                else:
+                    # a site in the leading part of a long locus
+                    g[t.int(0, pl - 1)][t.int(0, max(0, n_pos - 23))] ^= 1
+            perm = list(range(pl))
+            for k in range(pl - 1, 0, -1):
+                j = t.int(0, k)
+                perm[k], perm[j] = perm[j], perm[k]
+            g = [g[k] for k in perm]
+            ctx.counters.inc("row_permute")
+            keys.append(ref.hap_key(g))
+            rows.append([list(r) for r in g])
+        chains.append(keys)
+        stored.append(rows)
+    ctx.log.add("walk", pl, n_pos, [len(set(ch)) for ch in chains])
+    trace = bootstrap()["aclasses"].GenotypeMultiTrace(np.array(stored, dtype=np.int8), np.zeros((cfg["chains"], steps)))
+    if n_pos > 22:
+        ctx.counters.inc("long_locus_traces")
+    check_assemble_trace(ctx, cfg, trace, chains)
+
+
+def check_assemble_trace(ctx, cfg, trace, chains):
+    np = bootstrap()["np"]
     pl = cfg["ploidy"]
     steps = cfg["steps"]
     if len(chains) != cfg["chains"] or any(len(c) != steps for c in chains):
@@ -408,6 +461,12 @@ def sut_exception_is_violation(e, ctx):
 
 def shrink_candidates(cfg, violation):
     w = cfg["workload"]
+    if w == "walk":
+        out = []
+        for k, v in (("chains", 1), ("ploidy", 2), ("steps", max(1, cfg["steps"] - 1)), ("n_pos", max(1, cfg["n_pos"] // 2)), ("n_pos", max(1, cfg["n_pos"] - 1))):
+            if cfg[k] != v:
+                out.append(dict(cfg, **{k: v}))
+        return out
     if w == "assemble":
         out = wl_assemble.shrink_candidates(cfg, violation)
     elif w == "call":
